@@ -378,6 +378,7 @@ func vh_ae_log() {
 	expect := pre.applied + 1
 	for len(r.fsmMutateCh) > 0 {
 		b := (<-r.fsmMutateCh).([]*commitTuple)
+		vAssert(len(b) >= 1 && len(b) <= r.config().MaxAppendEntries, "C02.ae.batch-size-bounded")
 		for _, ct := range b {
 			vCover("ae.fed-fsm")
 			vAssert(ct.log.Index >= expect && ct.log.Index <= post.applied, "C02.ae.feed-order")
